@@ -167,7 +167,7 @@ def run_closure(eng, ctx, clo, args):
     from .sym import Closure
     if not isinstance(clo, Closure):
         raise Unsupported(f"closure expected, got {clo}")
-    b = eng.prog.closures.get(clo.span)
+    b = eng.prog.closure_body(clo)
     if b is None:
         raise Unsupported(f"closure body {clo.span} not found")
     base = len(ctx.frames)
